@@ -189,6 +189,36 @@ type DeepRequired struct {
 	B  bool
 }
 `},
+		{Name: "p9", Type: "Reuse", Code: `
+type Geo struct {
+	Lat float64
+	Lon *float64
+}
+
+type Address struct {
+	City string
+	Geo  Geo
+}
+
+type Contact struct {
+	Phone   *string
+	Address Address
+}
+
+type Holder struct {
+	Address Address
+	N       int32
+}
+
+type Reuse struct {
+	ID     int64
+	Home   Contact
+	Work   Contact
+	Root   Holder ` + "`parquet:\"root\"`" + `
+	Holder Holder
+	Alt    *Contact
+}
+`},
 		{Name: "p8", Type: "Wide", Code: `
 type Wide struct {
 	S1 string
